@@ -41,6 +41,10 @@ def kruskal_measure(
     # getting y values
     y_values = y.unique()
 
+    # Kruskal-Wallis' H is undefined when all known values are identical (0/0 after tie correction)
+    if x[~nans].nunique() < 2:
+        return False, {"kruskal_measure": nan}
+
     # computation of Kruskal-Wallis statistic
     kw = kruskal(*tuple(x[(~nans) & (y == y_value)] for y_value in y_values))
 
